@@ -114,6 +114,7 @@ def perms_for(rng, K, tier, count=3):
 
 # ----------------------------------------------------------------------------- cases
 _CCOUNT = [0]
+_CMASK = [0]
 
 
 def make_case(rng, tier, i, name, aligner=False, many=False, four=False):
@@ -172,10 +173,13 @@ def make_case(rng, tier, i, name, aligner=False, many=False, four=False):
         style = 'mask/' + str(init.dtype)
     opts = mm.sample_options(rng, name, K, N, lead, with_aligner=False)
     opts.pop('inline_permutation_alignment', None)
-    if name == 'cacgmm' and 'source_activity_mask' not in opts and rng.random() < 0.5:
+    if name == 'cacgmm':
+        _CMASK[0] += 1
+    if name == 'cacgmm' and not many and _CMASK[0] % 2 == 0:
+        # every second cACGMM case carries a mask, every fourth one with an observation where every source is inactive (a pause)
         m = rng.random((*lead, K, N)) < 0.75
         m[..., 0, :] |= ~m.any(axis=-2)
-        if rng.random() < 0.5:
+        if _CMASK[0] % 4 == 0:
             m[..., :, int(rng.integers(0, N))] = False       # an observation with every source inactive
         opts['source_activity_mask'] = m
     if aligner:
